@@ -524,8 +524,10 @@ bloc_parse_expression(bloc_context *ctx, const char *text)
 {
   bloc::Context& _ctx = *reinterpret_cast<bloc::Context*>(ctx);
   bloc::StringReader reader(text);
+  /* an expression may be laid out over several lines, like any source text:
+   * line ends are dropped, the end of the text ends the expression */
+  reader.append("\n;");
   bloc::Parser * p = bloc::Parser::createInteractiveParser(_ctx, reader);
-  /* an expression may be laid out over several lines, like any source text */
   p->state(bloc::Parser::Parsing);
   try
   {
